@@ -262,3 +262,50 @@ def finish(ctx, level='proof', trusted=None, rule='', explanation=''):
         if f.detail: print('    ' + f.detail[-600:].replace('\n', '\n    '))
     print('VIOLATION property=%s replay=%s%s' % (ctx.pid, rp, '' if concrete else ' no-failing-input-found'))
     return 1
+
+# ---------------------------------------------------------------- lock-step correspondence
+def corr_schedules(ctx, what, impl, model, cases, canon, oracle=None, nontrivial=None, tail='', scenario='', timeout=10):
+    """cases: list of (prog, schedule).  Runs implementation and extracted model on each, compares canonical traces
+    line by line, runs the oracle on every implementation trace.  Updates ctx coverage; records failures."""
+    ri = run_many([[impl, p, s + tail] for p, s in cases], timeout=timeout)
+    rm = run_many([[model, p, s + tail] for p, s in cases], timeout=timeout) if model else None
+    distinct = set(); ndis = 0; nor = 0
+    for k, (p, s) in enumerate(cases):
+        raw = ri[k][1]; cl = canon(raw); key = (p, tuple(cl))
+        nt = nontrivial(cl) if nontrivial else True
+        if nt: distinct.add(key)
+        if nt and len(ctx.cov['samples']) < 3: ctx.cov['samples'].append({'scenario': scenario, 'prog': p, 'schedule': s[:80], 'trace_head': cl[:12]})
+        abnormal = [w for w in ('DEADLOCK', 'STEP LIMIT', 'ABORT', 'BUG ', 'TIMEOUT') if w in raw]
+        o = ('abnormal run (%s): %s' % (abnormal[0], raw[-300:])) if abnormal else (oracle(p, s, cl, raw) if oracle else None)
+        if o:
+            nor += 1
+            if nor <= 3: ctx.fail('oracle', what + ' oracle', o, concrete={'scenario': scenario, 'prog': p, 'schedule': s + tail, 'verdict': o, 'trace_tail': cl[-40:]})
+        if rm is not None:
+            ml = rm[k][1].splitlines()
+            if cl != ml:
+                ndis += 1
+                if ndis <= 2:
+                    d = next((j for j, (a, b) in enumerate(zip(cl, ml)) if a != b), min(len(cl), len(ml)))
+                    ctx.fail('correspondence', what + ' (step-by-step trace equality)',
+                             'scenario %s prog %s schedule %s...: first difference at step %d: impl "%s" model "%s"' % (
+                                 scenario, p, s[:60], d, cl[d] if d < len(cl) else '<end>', ml[d] if d < len(ml) else '<end>'))
+    c = ctx.cov
+    c['evaluations'] += len(cases); c['distinct_nontrivial'] += len(distinct)
+    c['traces_validated_against_impl'] += (len(cases) - ndis) if rm is not None else 0
+    c['disagreements'] = c.get('disagreements', 0) + ndis
+    c['oracle_violations'] = c.get('oracle_violations', 0) + nor
+    c['input_distribution'].setdefault(scenario or what, {'cases': 0, 'schedule_len_avg': 0})
+    d = c['input_distribution'][scenario or what]; d['cases'] += len(cases)
+    d['schedule_len_avg'] = round(sum(len(s) for _, s in cases) / max(1, len(cases)), 1)
+    d['flush_choices'] = sum(sum(1 for ch in s if ch.islower()) for _, s in cases)
+    return ndis, nor
+
+def corpus(pid):
+    out = []
+    cp = os.path.join(VERIF, 'corpus', pid + '.txt')
+    if os.path.exists(cp):
+        for l in open(cp):
+            l = l.split('#')[0].split()
+            if len(l) == 2: out.append((l[0], l[1]))
+            elif len(l) == 3: out.append((l[0], l[1], l[2]))
+    return out
